@@ -184,7 +184,7 @@ def run(res, replay=None):
             inp = T.gen_input(rng, "manyfaces", 3 if j % 2 == 0 else 2, j % 4 >= 2, nmax=40)
             if not T.known_class(inp):
                 inputs.append(inp)
-    wd = os.path.join(C.CACHE, "run", "c09")
+    wd = C.rundir("c09")
     os.makedirs(wd, exist_ok=True)
     cf = os.path.join(wd, "c09.cases")
     with open(cf, "w") as f:
